@@ -353,7 +353,14 @@ fn state_fp<N: Analysis<Sym>>(eg: &EGraph<Sym, N>, rec: &[(T, AppliedId)]) -> St
     format!("{}|{}|{}|{}|{}|{:?}|{:?}", p.number_of_classes, p.number_of_live_classes, p.sum_of_slots, p.sum_of_symmetries, eg.total_number_of_nodes(), per, finds)
 }
 
-fn run<N: MaybeMulti + Default + 'static>(hist: &[Op], gen_level: u8) -> Result<(Vec<Fail>, u64, u64, u64, u64), String> {
+/// the name the next `Slot::fresh()` of this thread will print as (the probe itself uses one up)
+fn next_fresh_name() -> String {
+    let probe = Slot::fresh().to_string();
+    let n: u64 = probe.trim_start_matches("$f").parse().expect("fresh slots print as $f<n>");
+    format!("$f{}", n + 1)
+}
+
+fn run<N: MaybeMulti + Default + 'static>(hist: &[Op], gen_level: u8, next_fresh: bool) -> Result<(Vec<Fail>, u64, u64, u64, u64), String> {
     let nm = Naming::Numeric;
     let mut eg = EGraph::<Sym, N>::default();
     let mut rec = Vec::new();
@@ -392,7 +399,14 @@ fn run<N: MaybeMulti + Default + 'static>(hist: &[Op], gen_level: u8) -> Result<
         Vec::new()
     };
     let n_single_respelled = PATTERNS.iter().filter(|p| p.contains("$0") || p.contains("$1")).count();
-    for ps in PATTERNS.iter().copied().chain(generated_single.iter().map(|s| s.as_str())).chain(respelled.iter().take(if internal.len() >= 2 { n_single_respelled } else { 0 }).map(|s| s.as_str())) {
+    // ... and a third time with the slot $0 spelled exactly like the NEXT slot `Slot::fresh()` would hand out at the
+    // moment the pattern is parsed (`$NF` is replaced right before parsing): a legal public name which the slots the
+    // matcher invents afterwards must avoid
+    let nf_single: Vec<String> = if next_fresh { PATTERNS.iter().filter(|p| p.contains("$0")).map(|p| p.replace("$0", "$NF")).collect() } else { Vec::new() };
+    let nf_multi: Vec<String> = if next_fresh { MULTI.iter().filter(|p| p.contains("$0")).map(|p| p.replace("$0", "$NF")).collect() } else { Vec::new() };
+    for ps in PATTERNS.iter().copied().chain(generated_single.iter().map(|s| s.as_str())).chain(respelled.iter().take(if internal.len() >= 2 { n_single_respelled } else { 0 }).map(|s| s.as_str())).chain(nf_single.iter().map(|s| s.as_str())) {
+        let ps_owned = if ps.contains("$NF") { ps.replace("$NF", &next_fresh_name()) } else { ps.to_string() };
+        let ps = ps_owned.as_str();
         let pat: Pattern<Sym> = Pattern::parse(ps).expect("pattern pool parses");
         let mut vars = BTreeSet::new();
         pvars(&pat, &mut vars);
@@ -425,7 +439,9 @@ fn run<N: MaybeMulti + Default + 'static>(hist: &[Op], gen_level: u8) -> Result<
         }
     }
     let generated = if gen_level > 0 { generated_pool(gen_level) } else { std::rc::Rc::new(Vec::new()) };
-    for ps in MULTI.iter().copied().chain(generated.iter().map(|s| s.as_str())).chain(respelled.iter().skip(n_single_respelled).map(|s| s.as_str())) {
+    for ps in MULTI.iter().copied().chain(generated.iter().map(|s| s.as_str())).chain(respelled.iter().skip(n_single_respelled).map(|s| s.as_str())).chain(nf_multi.iter().map(|s| s.as_str())) {
+        let ps_owned = if ps.contains("$NF") { ps.replace("$NF", &next_fresh_name()) } else { ps.to_string() };
+        let ps = ps_owned.as_str();
         let mp: MultiPattern<Sym> = MultiPattern::parse(ps).expect("multi-pattern pool parses");
         // the equations, re-parsed on the harness side
         let eqs: Vec<(String, Sym, Vec<String>)> = ps
@@ -522,7 +538,7 @@ impl Prop for MatchProp {
         vec!["egraph_with_symmetric_class", "egraph_with_redundant_slot", "single_pattern_match_checked", "multi_pattern_match_checked"]
     }
     fn rule(&self) -> String {
-        format!("Every multiset of union/insert operations of the stated depth over the stated alphabets, in every distinct ordering, is executed; on the resulting e-graph every pattern of a {}-pattern pool (repeated variables, repeated/free/bound slots, nested nodes) is matched with ematch_all and every multi-pattern of a {}-pattern pool with multi_ematch; on the small-alphabet segments (MICRO/SAME/SHARE/CORE depth 2, MICRO/SAME depth 3, BIND depth 1; thorough more) additionally EVERY 2-equation multi-pattern in canonical form over the templates (b ?x ?y) (u ?x) (lam $s ?x) (var $s) (h $s) (f $s $t) with at most 2 slots (632 equation sequences; thorough on MICRO^2/SAME^2 also all 35 584 3-equation sequences over b/u/var/f). For every returned substitution: all pattern variables bound to well-formed invocations; a read-only instantiation (EGraph::lookup node by node) finds the term; for multi-patterns each equation ?v == node holds (lookup of the node is eq to ?v's binding); the observable state (progress, nodes, per-class profile, canonical form of every handle) is identical before and after. The small alphabets (MICRO SHARE SAME CASC TERN CASE) a second time on an e-graph with the min-size analysis attached (hand-picked pools). Non-trivial = number of substitutions checked.", PATTERNS.len(), MULTI.len())
+        format!("Every multiset of union/insert operations of the stated depth over the stated alphabets, in every distinct ordering, is executed; on the resulting e-graph every pattern of a {}-pattern pool (repeated variables, repeated/free/bound slots, nested nodes) is matched with ematch_all and every multi-pattern of a {}-pattern pool with multi_ematch; on the small-alphabet segments (MICRO/SAME/SHARE/CORE depth 2, MICRO/SAME depth 3, BIND depth 1; thorough more) additionally EVERY 2-equation multi-pattern in canonical form over the templates (b ?x ?y) (u ?x) (lam $s ?x) (var $s) (h $s) (f $s $t) with at most 2 slots (632 equation sequences; thorough on MICRO^2/SAME^2 also all 35 584 3-equation sequences over b/u/var/f). For every returned substitution: all pattern variables bound to well-formed invocations; a read-only instantiation (EGraph::lookup node by node) finds the term; for multi-patterns each equation ?v == node holds (lookup of the node is eq to ?v's binding); the observable state (progress, nodes, per-class profile, canonical form of every handle) is identical before and after. The small alphabets (MICRO SHARE SAME CASC TERN CASE) a second time on an e-graph with the min-size analysis attached (hand-picked pools); on these alphabets the hand-picked pools also run with the slot $0 spelled exactly like the next slot Slot::fresh() would hand out at the moment the pattern is parsed. Non-trivial = number of substitutions checked.", PATTERNS.len(), MULTI.len())
     }
     fn assumptions(&self) -> Vec<String> {
         vec!["histories that panic are reported as a no-answer failure (the same defect is also reported by C08 where its exploration reaches it)".into()]
@@ -545,7 +561,7 @@ impl Prop for MatchProp {
             out.traces += 1;
             out.transitions += hist.len() as u64;
             let hs = format!("{}{}", if pass == 1 { "[with analysis] " } else { "" }, hist.iter().map(|o| o.show()).collect::<Vec<_>>().join(" ; "));
-            match fresh_thread(move || if pass == 1 { run::<crate::props::inv::MinSizeReading>(&h2, 0) } else { run::<()>(&h2, gen_level) }) {
+            match fresh_thread(move || if pass == 1 { run::<crate::props::inv::MinSizeReading>(&h2, 0, true) } else { run::<()>(&h2, gen_level, analysis_too) }) {
                 Err(site) | Ok(Err(site)) => {
                     out.aborted.push(site);
                     out.outcomes.push("aborted".into());
